@@ -178,13 +178,15 @@ where
     // Prepare the default SolOut (wrapping user callback if provided)
     let n_states = y0.len();
     // The output handler reports the first sample at x0 +/- first_step: give it the magnitude
-    // (the solvers ignore the sign as well).  A first step that spans the whole interval needs
-    // no special first output: the end point is reported anyway.  Neither does one below the
+    // (the solvers ignore the sign as well).  A first step that spans the whole interval (to
+    // the rounding with which the solvers land on xend: a run may end a few ulps short of it and
+    // would never reach a target beyond that) needs no special first output: the end point is
+    // reported anyway.  Neither does one below the
     // resolution of x0 (x0 +/- first_step == x0 would report the initial point twice).
     let first_output = options
         .first_step
         .map(|h| h.abs())
-        .filter(|h| *h < (xend - x0).abs())
+        .filter(|h| (xend - x0).abs() - *h > 100.0 * Float::EPSILON * x0.abs().max(xend.abs()))
         .filter(|h| x0 + h.copysign(xend - x0) != x0);
     let mut default_solout = DefaultSolOut::new(f, options.t_eval.clone(), options.dense_output, first_output, x0, n_states);
 
